@@ -576,6 +576,10 @@ func splitGopkgIn(path string) (prefix, pathMajor string, ok bool) {
 	if len(pathMajor) <= 2 || pathMajor[2] == '0' && pathMajor != ".v0" {
 		return path, "", false
 	}
+	if pathMajor[2] < '0' || '9' < pathMajor[2] {
+		// ".v-unstable": the -unstable suffix needs a major version number.
+		return path, "", false
+	}
 	return prefix, pathMajor, true
 }
 
